@@ -16,3 +16,10 @@ CHECKS["C20"] = {
   "text": "TLC explores the life-cycle model completely (all tool behaviours; invariants: clean-up exactly once at run end, nothing left behind, results only after a good run). Every sequence of core calls (start/join/join(timeout)/cancel/get_app_state/release) of length <= 4 (quick) / 5-6 (thorough) that the model enables is replayed on 6 wrapper classes x up to 7 tool behaviours; after each step the observation (outcome class, stored flag, clean-up count, temp files, child liveness, cwd) must match a model successor, and all 12 probe (getter/setter) transitions are checked at every visited state. Results of successful runs are compared with the fake tool's output for every small input set.",
   "note": "Trusts the TLA+ model as the reading of the documented life cycle, the deterministic fake tool, and /proc for child liveness; real tools and OS-level races are outside. Time enters only through join(timeout=0.05 s) against a child provably blocked on a gate file.",
 }
+CHECKS["C01"] = {
+  "engine": "E1-history-explorer",
+  "technique": "explicit-state BFS over operation histories on real AtomArray/AtomArrayStack objects vs. a list-of-atoms model, canonical-state deduplication, complete observation per state",
+  "ref": "DESIGN.md section 4 C01",
+  "text": "Every operation history up to depth 2 (quick) / 3 (thorough) over a ~150-300 operation alphabet (all int/slice/mask/index-array/ellipsis/2-D indices incl. negative and out-of-range values, concatenation, stacking, repeat, from_template, atom and model deletion, atom/model assignment, annotation edits, coord/box/bonds assignment, copy) from 9 initial containers is executed on the real objects and compared with a list-of-atoms model: annotations, coord, per-model box, bonds, __eq__ against a model-built twin and perturbed twins, leaf views, copy independence.",
+  "note": "Trusts the list-of-atoms model in props/c01.py and numpy's indexing of np.arange(n) as the meaning of an index; indices numpy rejects only have to raise or yield a coherent container; failed in-place calls only have to leave a coherent container.",
+}
